@@ -1,44 +1,66 @@
 import RawPanelVerif.Lemmas.SvgLemmas
 import RawPanelVerif.Lemmas.SvgPrint
 import RawPanelVerif.Lemmas.SvgShape
+import RawPanelVerif.Lemmas.SvgXmldomWf
+import RawPanelVerif.Model.SvgObs
 /-!
 # C15 — Composite panel SVG contains exactly the visible components, correctly placed
 
-Property theorems only.  The statement is `Spec.Svg.checkSVG` (Spec/SvgSpec.lean), the predicate the check also
-evaluates on the element list the real `GenerateCompositeSVGdoc` appended to the base document and on the text the
-real printer wrote for each element.
+Property theorems only.  The statement is `Spec.Svg.checkSVG` (Spec/SvgSpec.lean, Spec/SvgBaseSpec.lean), the predicate
+the check also evaluates on the element list the real `GenerateCompositeSVGdoc` appended to the base document, on the
+text the real printer wrote for each element, and on four flags the harness observes on the real printed documents.
 Everything is for **all** topologies (as in C13), all availability maps (nil, empty, any entries), all four render
 switches, every rotation-format table, every token stream of the base document and **all byte strings** as labels,
 styles and other texts.
 
-What is proved, what is observed
-* **Proved** (about the model, which the correspondence check ties to the code element by element, attribute by
-  attribute and printed byte by printed byte):
+What is proved (about the model, which the correspondence check ties to the code element by element, attribute by
+attribute, printed byte by printed byte, and flag by flag)
+* **What is added**
   * `svg_appended_holds`         the appended elements satisfy `Spec.Svg.checkAppended`: every one is well-formed as
                                  printed (`wf-names`, `wf-printed`) and they are exactly the groups of the visible
                                  components (`main`, `group`, `extra-nodes`, `missing-main`), including the rotation
                                  (`transform`) of main shape and sub-shapes and `rx`/`ry`/`style` of the sub-shapes.
-  * `svg_verdict_is_observation` the verdict of the whole predicate `checkSVG` on the model's output is, for a valid
-                                 base, exactly the verdict on the observed flags (`Spec.Svg.observedOk`), and `none`
-                                 (= holds) for an invalid base; `svg_holds` is the same with the flags assumed good.
-  * `appended_wellformed`, `printed_wellformed_any_node`, `attr_names_distinct`  well-formedness of the appended part:
-                                 names, no attribute twice, and the printed text of ANY node is
-                                 `<name a="v"… />` / `<name a="v"…>content</name>` with well-formed values and content.
-  * `bad_svg_gives_empty`        a base whose `encoding/xml` token stream ends in an error, is empty, or has no
-                                 start element (only a declaration / comments / white space) ⇒ the parser result is
-                                 `err` or `noRoot` and the result is `none` (the string wrapper returns ""); no panic
-                                 is possible because the model is total and equal to the code on the checked inputs.
-  * `parse_root_iff_valid`, `valid_base_gives_document`  the parser finds a root exactly for the valid bases, and
-                                 then a document is produced.
-  * `masked_contribute_nothing`, `one_main_shape_per_visible`, `main_shape_geometry`, `label_count_le_two`,
-    `label_count_pos`, `id_text_present`  as before.
-  * `label_positions`, `label_spacing`, `text_transform`  what the property text leaves open but the code fixes:
-                                 label line `a` of `cnt` sits at x = X, y = Y + 27 + 30·a − (cnt·30)/2; consecutive
-                                 lines are 30 apart; the texts rotate with the component.
-* **Observed** on the implementation only (flags in every record, part of `checkSVG`, not proved): "keeps the base
-  document's content" (`kept`, `kept2`: tree comparison and `encoding/xml` token-stream containment), the whole
-  printed document re-parses (`wellformed`) and ends with the printed appended elements (`tail`).  They concern the
-  base document, `go-xmldom`'s parser and its printing of the base part, which are parameters of the model.
+  * `appended_wellformed`, `printed_wellformed_any_node`, `attr_names_distinct`  names, no attribute twice, and the
+                                 printed text of ANY node is `<name a="v"… />` / `<name a="v"…>content</name>` with
+                                 well-formed values and content.
+  * `masked_contribute_nothing`, `ids_of_groups`, `one_main_shape_per_visible`, `main_shape_geometry`,
+    `transform_present_iff`, `shape_rotation`, `label_count_le_two`, `label_count_pos`, `id_text_present`;
+    `label_positions`, `label_spacing`, `text_transform` (what the property text leaves open but the code fixes).
+* **Unparsable base**
+  * `bad_svg_gives_empty`, `no_root_gives_empty`, `parse_root_iff_valid`, `valid_base_gives_document`  a base whose
+                                 `encoding/xml` token stream ends in an error, is empty or has no start element ⇒ the
+                                 parser result is `err` / `noRoot` and the result is `none`; a root is found exactly
+                                 for the bases the decoder accepts; no panic (the model is total).
+  * `rejected_valid_gives_empty` the same for a VALID document the decoder rejects (8-bit encoding, XML 1.1, internal
+                                 entity; the harness's judgement `rej`): the predicate says `valid-base-rejected:<class>`.
+* **The base document through the `go-xmldom` parse/print round trip** (Model/XmldomBase.lean, on `encoding/xml` token
+  streams; `docShape [] false ts` = the stream is a document)
+  * `kept_iff_no_lossy_feature`  the base printed back alone keeps its content (`Spec.SvgBase.keepsContent`) **iff** it
+                                 has none of four features: a comment, a prefixed name, a processing instruction
+                                 behind another token, character data that is not the last thing in its element.
+  * `lossless_roundtrip`         … and then the printed token stream IS the base's content.
+  * `kept_of_no_lossy_feature`   a base without these features is kept whatever elements are appended.
+  * `comment_lost`, `prefix_lost`, `pi_lost`  with the feature the content is not kept, whatever is appended.
+  * `mixed_text_lost`            the same for mixed text when nothing is appended; `mixed_text_kept_by_coincidence`:
+                                 with an appended element the containment test can hold although text moved (a
+                                 concrete witness; the exact guard is "nothing appended").
+  * `wellformed_iff_no_attr_collision`, `attr_collision_needs_prefix`  the printed document has an attribute twice in a
+                                 tag exactly when a tag of the base has two attributes with one local name, which
+                                 needs prefixes (`href`, `xlink:href`).
+* **The whole predicate**
+  * `svg_verdict_is_observation`, `svg_holds`  for arbitrary observed flags: the verdict on the model's output is exactly
+                                 the verdict on the flags (valid base), `valid-base-rejected:<class>` or "holds".
+  * `svg_model_verdict`, `model_failure_is_classified`, `svg_model_holds_of_no_feature`  with the flags the model itself
+                                 predicts (`Xmldom.modelObserved`, Model/SvgObs.lean): `not-wellformed:duplicate-attribute`
+                                 / holds / `base-content:<feature>` — never the plain `base-content` / `wellformed`
+                                 (those always mean code ≠ model), and "holds" for a document without the five features.
+
+Not proved: that the bytes `go-xmldom` prints re-tokenize to the modelled token stream (escaping / unescaping,
+`<?target inst?>`, `<!directive>`); the flags `kept` (tree against tree) and `tail` are observed only.  The check
+compares the model's `kept2` / `wellformed` with the ones `encoding/xml` gives on the real documents on every record.
+
+Known findings (known_findings.json, `C15.*`, status known): on the unchanged library the property is false for valid
+bases with one of the five features and for the three rejected kinds; clause names as above.
 -/
 namespace RawPanelVerif.C15
 open RawPanelVerif RawPanelVerif.Topo RawPanelVerif.Topo.Svg
@@ -173,12 +195,14 @@ theorem svg_appended_holds (rot : Str → RotInfo) (kinds : Str) (endOk : Bool) 
     exact groups_ok rot o t mask t.hwc
 
 /-- The verdict of the whole predicate on the model's output: for a valid base it is exactly the verdict on the
-OBSERVED flags (base content kept, whole document re-parses, printed tail) — everything else is proved; for an
-invalid base the predicate holds. -/
-theorem svg_verdict_is_observation (rot : Str → RotInfo) (kinds : Str) (endOk : Bool) (o : SvgOpts) (t : Topology)
-    (mask : Option (List (Nat × Nat))) (ob : Spec.Svg.Observed) :
-    Spec.Svg.checkSVG (fmtOf rot) o t mask kinds endOk (withPrinted (compositeNodes rot kinds endOk o t mask)) ob
-      = if Spec.Svg.baseOk kinds endOk then Spec.Svg.observedOk ob else none := by
+OBSERVED flags (printed tail, whole document re-parses, base content kept) — everything else is proved; for a base
+the decoder does not accept the model returns nothing and the predicate holds, unless the base is one of the valid
+documents the decoder rejects (`rej`): then the verdict is `valid-base-rejected:<class>`. -/
+theorem svg_verdict_is_observation (rot : Str → RotInfo) (kinds : Str) (endOk : Bool) (ts : List Xml.Tok) (rej : Option String)
+    (o : SvgOpts) (t : Topology) (mask : Option (List (Nat × Nat))) (ob : Spec.Svg.Observed) :
+    Spec.Svg.checkSVG (fmtOf rot) o t mask kinds endOk ts rej (withPrinted (compositeNodes rot kinds endOk o t mask)) ob
+      = if Spec.Svg.baseOk kinds endOk then Spec.Svg.observedOk (Spec.SvgBase.features ts) ob
+        else rej.map (fun c => "valid-base-rejected:" ++ c) := by
   cases hb : Spec.Svg.baseOk kinds endOk with
   | false =>
     have hn : compositeNodes rot kinds endOk o t mask = none := by
@@ -193,15 +217,20 @@ theorem svg_verdict_is_observation (rot : Str → RotInfo) (kinds : Str) (endOk 
     have ha := svg_appended_holds rot kinds endOk o t mask _ hs
     rw [hs]
     simp only [withPrinted, Option.map_some, Spec.Svg.checkSVG, hb, Bool.not_true, Bool.false_eq_true, if_false, if_true]
-    cases Spec.Svg.observedOk ob with
-    | some e => rfl
-    | none => exact ha
+    rw [ha]
 
-/-- with the observed flags good, the model's output satisfies every clause of the Spec -/
-theorem svg_holds (rot : Str → RotInfo) (kinds : Str) (endOk : Bool) (o : SvgOpts) (t : Topology)
-    (mask : Option (List (Nat × Nat))) (ob : Spec.Svg.Observed) (hob : Spec.Svg.observedOk ob = none) :
-    Spec.Svg.checkSVG (fmtOf rot) o t mask kinds endOk (withPrinted (compositeNodes rot kinds endOk o t mask)) ob = none := by
-  rw [svg_verdict_is_observation, hob]
+theorem observedOk_none_iff (f : Spec.SvgBase.Features) (ob : Spec.Svg.Observed) :
+    Spec.Svg.observedOk f ob = none ↔ (ob.tail = true ∧ ob.wellformed = true ∧ ob.kept = true ∧ ob.kept2 = true) := by
+  obtain ⟨k, k2, w, tl⟩ := ob
+  cases k <;> cases k2 <;> cases w <;> cases tl <;> simp [Spec.Svg.observedOk]
+
+/-- with the observed flags good, the model's output satisfies every clause of the Spec (for a base that is not one of
+the rejected valid documents) -/
+theorem svg_holds (rot : Str → RotInfo) (kinds : Str) (endOk : Bool) (ts : List Xml.Tok) (o : SvgOpts) (t : Topology)
+    (mask : Option (List (Nat × Nat))) (ob : Spec.Svg.Observed) (f : Spec.SvgBase.Features)
+    (hob : Spec.Svg.observedOk f ob = none) :
+    Spec.Svg.checkSVG (fmtOf rot) o t mask kinds endOk ts none (withPrinted (compositeNodes rot kinds endOk o t mask)) ob = none := by
+  rw [svg_verdict_is_observation, (observedOk_none_iff _ ob).mpr ((observedOk_none_iff f ob).mp hob)]
   simp
 
 theorem masked_contribute_nothing (rot : Str → RotInfo) (o : SvgOpts) (t : Topology) (mask : Option (List (Nat × Nat))) :
@@ -488,6 +517,209 @@ theorem text_transform (rot : Str → RotInfo) (o : SvgOpts) (c : HWc) (td : Typ
     · apply transform_fresh
       simp (config := { decide := true }) [setAttrs_cons, setAttrs_nil, attr_setAttr, attr_empty]
 
+/-! ## the base document through the `go-xmldom` round trip (`Model/XmldomBase.lean`): what is lost when
+
+`ts` is the token stream of the base as `encoding/xml` delivers it, `Xmldom.printedToks app ts` the token stream of the
+printed document with the tokens `app` of the appended elements, `Spec.SvgBase.keepsContent` / `noDupAttrs` the
+Spec's "keeps the base document's content" / "no attribute twice" on token streams.  `docShape [] false ts` says that
+`ts` is a document: matching tags (which `Decoder.Token` enforces), one top-level element, no character data outside
+it, directives only before it (which it does not enforce). -/
+
+open RawPanelVerif.Xml in
+/-- **What exactly is lost.**  The base document printed back alone (nothing appended) keeps its content **iff** it has
+none of the four lossy features: no comment, no prefixed name, no processing instruction behind another token, no
+character data that is not the last thing in its element. -/
+theorem kept_iff_no_lossy_feature (ts : List Tok) (hd : Spec.SvgBase.docShape [] false ts = true) :
+    Spec.SvgBase.keepsContent ts (Xmldom.printedToks [] ts) = true ↔ Spec.SvgBase.lossFree ts = true :=
+  ⟨Xmldom.lossFree_of_kept_nil ts hd, fun h => Xmldom.kept_of_lossFree [] ts hd h⟩
+
+open RawPanelVerif.Xml in
+/-- … and then the printed document IS the content of the base, token for token -/
+theorem lossless_roundtrip (ts : List Tok) (hd : Spec.SvgBase.docShape [] false ts = true)
+    (h : Spec.SvgBase.lossFree ts = true) : Xmldom.printedToks [] ts = Spec.SvgBase.content ts :=
+  Xmldom.printed_nil_of_lossFree ts hd h
+
+open RawPanelVerif.Xml in
+/-- a base without lossy features is kept whatever elements are appended to its root -/
+theorem kept_of_no_lossy_feature (nodes : List SvgNode) (ts : List Tok) (hd : Spec.SvgBase.docShape [] false ts = true)
+    (h : Spec.SvgBase.lossFree ts = true) : (Xmldom.modelObserved nodes ts).kept2 = true :=
+  Xmldom.kept_of_lossFree _ ts hd h
+
+open RawPanelVerif.Xml in
+/-- a comment anywhere in the base: content lost, whatever is appended (the parser ignores comment tokens) -/
+theorem comment_lost (nodes : List SvgNode) (ts : List Tok) (h : Spec.SvgBase.hasComment ts = true) :
+    (Xmldom.modelObserved nodes ts).kept2 = false :=
+  Xmldom.comment_not_kept _ ts (Xmldom.appToks_plain nodes) h
+
+open RawPanelVerif.Xml in
+/-- a name written with a prefix (element or attribute, also `xmlns:p`): content lost (only `Name.Local` is stored) -/
+theorem prefix_lost (nodes : List SvgNode) (ts : List Tok) (h : Spec.SvgBase.hasPrefix ts = true) :
+    (Xmldom.modelObserved nodes ts).kept2 = false :=
+  Xmldom.prefix_not_kept _ ts (Xmldom.appToks_plain nodes) h
+
+open RawPanelVerif.Xml in
+/-- a processing instruction that is not the first token of the document: content lost (one `ProcInst`, printed first) -/
+theorem pi_lost (nodes : List SvgNode) (ts : List Tok) (h : Spec.SvgBase.piMoved ts = true) :
+    (Xmldom.modelObserved nodes ts).kept2 = false :=
+  Xmldom.pi_not_kept _ ts (Xmldom.appToks_plain nodes) h
+
+open RawPanelVerif.Xml in
+/-- character data that is not the last thing in its element: lost or moved behind the children — when nothing is
+appended.  With appended elements the statement is false in general, see `mixed_text_kept_by_coincidence`. -/
+theorem mixed_text_lost (ts : List Tok) (hd : Spec.SvgBase.docShape [] false ts = true) (h : Spec.SvgBase.mixedText ts = true) :
+    (Xmldom.modelObserved [] ts).kept2 = false := by
+  cases hk : (Xmldom.modelObserved [] ts).kept2 with
+  | false => rfl
+  | true =>
+    have := (kept_iff_no_lossy_feature ts hd).mp hk
+    simp [Spec.SvgBase.lossFree, h] at this
+
+/-- `<svg>7<text>7</text></svg>` with one appended `<text>7</text>`: the moved text `7` and the appended element
+together contain the base's tokens in order — the containment test cannot see the move.  (The generator never
+appends an element without attributes; the guard of `mixed_text_lost` is "nothing appended".) -/
+theorem mixed_text_kept_by_coincidence :
+    let ts : List Xml.Tok := [.start [] (b "svg") [], .text (b "7"), .start [] (b "text") [], .text (b "7"), .stop [] (b "text"),
+      .stop [] (b "svg")]
+    Spec.SvgBase.docShape [] false ts = true ∧ Spec.SvgBase.mixedText ts = true ∧
+    (Xmldom.modelObserved [{ name := b "text", text := b "7" }] ts).kept2 = true := by decide
+
+open RawPanelVerif.Xml in
+/-- **Well-formedness of the whole printed document** as far as a printed tree can violate it: an attribute name occurs
+twice in a start tag exactly when a start tag of the base has two attributes with the same local name (`href` and
+`xlink:href`): the appended elements never contribute (`attr_names_distinct`). -/
+theorem wellformed_iff_no_attr_collision (rot : Str → RotInfo) (kinds : Str) (endOk : Bool) (o : SvgOpts) (t : Topology)
+    (mask : Option (List (Nat × Nat))) (nodes : List SvgNode) (h : compositeNodes rot kinds endOk o t mask = some nodes)
+    (ts : List Tok) (hd : Spec.SvgBase.docShape [] false ts = true) :
+    (Xmldom.modelObserved nodes ts).wellformed = !Spec.SvgBase.attrCollision ts := by
+  have hn : Spec.SvgBase.noDupAttrs (Xmldom.appToks nodes) = true :=
+    Xmldom.noDupAttrs_appToks nodes (fun n hn => (attr_names_distinct rot kinds endOk o t mask nodes h n hn).1)
+  simp only [Xmldom.modelObserved, Xmldom.noDupAttrs_printed _ ts hd, hn, Bool.true_and]
+
+open RawPanelVerif.Xml in
+/-- a collision needs a prefix: without prefixes the base's own attribute names (distinct as written) stay distinct -/
+theorem attr_collision_needs_prefix (ts : List Tok) (hx : Spec.SvgBase.XmlDoc ts = true) (hp : Spec.SvgBase.hasPrefix ts = false) :
+    Spec.SvgBase.attrCollision ts = false := by
+  simp only [Spec.SvgBase.XmlDoc, Bool.and_eq_true] at hx
+  have hnd := hx.2
+  clear hx
+  induction ts with
+  | nil => rfl
+  | cons tk r ih =>
+    simp only [Spec.SvgBase.hasPrefix, List.any_cons, Bool.or_eq_false_iff] at hp
+    simp only [Spec.SvgBase.noDupAttrs, List.all_cons, Bool.and_eq_true] at hnd
+    simp only [Spec.SvgBase.attrCollision, List.any_cons, Bool.or_eq_false_iff]
+    refine ⟨?_, ih hp.2 hnd.2⟩
+    cases tk with
+    | start p l as =>
+      have h1 := hnd.1
+      have h2 := hp.1
+      simp only [Spec.SvgBase.prefixed, Bool.or_eq_false_iff, Bool.not_eq_false', List.isEmpty_iff] at h2
+      simp only [Spec.SvgBase.dupLocal, Spec.SvgBase.attrNames, Bool.not_eq_false'] at h1 ⊢
+      have e : as.map (fun a => (a.1, a.2.1)) = as.map (fun a => (([] : Str), a.2.1)) := by
+        apply List.map_congr_left
+        intro a ha
+        have hne := List.any_eq_false.mp h2.2 a ha
+        have : a.1 = [] := by
+          cases h : a.1 with
+          | nil => rfl
+          | cons _ _ => simp [h] at hne
+        rw [this]
+      rw [e, Xmldom.distinctP_pair (fun (a : Str × Str × Str) => a.2.1) as] at h1
+      exact h1
+    | _ => rfl
+
+open RawPanelVerif.Xml in
+/-- **The model's verdict on a valid base document.**  With the flags the model itself predicts, the whole predicate
+says of the model's output: `not-wellformed:duplicate-attribute` when two attributes of a base tag share a local name,
+else nothing when the (modelled) printed document keeps the base's content, else `base-content:<feature>`. -/
+theorem svg_model_verdict (rot : Str → RotInfo) (kinds : Str) (endOk : Bool) (o : SvgOpts) (t : Topology)
+    (mask : Option (List (Nat × Nat))) (nodes : List SvgNode) (h : compositeNodes rot kinds endOk o t mask = some nodes)
+    (ts : List Tok) (hd : Spec.SvgBase.docShape [] false ts = true) :
+    Spec.Svg.checkSVG (fmtOf rot) o t mask kinds endOk ts none (withPrinted (compositeNodes rot kinds endOk o t mask))
+        (Xmldom.modelObserved nodes ts)
+      = if Spec.SvgBase.attrCollision ts then some "not-wellformed:duplicate-attribute"
+        else if (Xmldom.modelObserved nodes ts).kept2 then none
+        else some (Spec.SvgBase.contentClause (Spec.SvgBase.features ts)) := by
+  have hb : Spec.Svg.baseOk kinds endOk = true := by
+    cases hb : Spec.Svg.baseOk kinds endOk with
+    | true => rfl
+    | false =>
+      have := (bad_svg_gives_empty rot kinds endOk o t mask (by
+        unfold Spec.Svg.baseOk at hb
+        cases endOk with
+        | false => exact Or.inl rfl
+        | true => right; simpa using hb)).2
+      rw [this] at h; cases h
+  rw [svg_verdict_is_observation, hb, if_pos rfl]
+  have hw := wellformed_iff_no_attr_collision rot kinds endOk o t mask nodes h ts hd
+  unfold Spec.Svg.observedOk
+  rw [hw]
+  have hk : (Xmldom.modelObserved nodes ts).kept = true := rfl
+  have ht : (Xmldom.modelObserved nodes ts).tail = true := rfl
+  rw [hk, ht]
+  cases hc : Spec.SvgBase.attrCollision ts with
+  | true => simp [Spec.SvgBase.wellformedClause, Spec.SvgBase.features, hc]
+  | false => cases (Xmldom.modelObserved nodes ts).kept2 <;> simp
+
+open RawPanelVerif.Xml in
+/-- **Every failure the model predicts is one of the known classes**: on a document (`XmlDoc`) the verdict on the
+model's output is "holds" or one of the five clause names that carry a feature of the base — never the plain
+`base-content` / `wellformed`, which therefore always mean that the code differs from the model. -/
+theorem model_failure_is_classified (rot : Str → RotInfo) (kinds : Str) (endOk : Bool) (o : SvgOpts) (t : Topology)
+    (mask : Option (List (Nat × Nat))) (nodes : List SvgNode) (h : compositeNodes rot kinds endOk o t mask = some nodes)
+    (ts : List Tok) (hx : Spec.SvgBase.XmlDoc ts = true) :
+    Spec.Svg.checkSVG (fmtOf rot) o t mask kinds endOk ts none (withPrinted (compositeNodes rot kinds endOk o t mask))
+        (Xmldom.modelObserved nodes ts)
+      ∈ [none, some "not-wellformed:duplicate-attribute", some "base-content:comment", some "base-content:mixed-text",
+         some "base-content:ns-prefix", some "base-content:pi"] := by
+  have hd : Spec.SvgBase.docShape [] false ts = true := by
+    simp only [Spec.SvgBase.XmlDoc, Bool.and_eq_true] at hx; exact hx.1
+  rw [svg_model_verdict rot kinds endOk o t mask nodes h ts hd]
+  cases hc : Spec.SvgBase.attrCollision ts with
+  | true => simp
+  | false =>
+    cases hk : (Xmldom.modelObserved nodes ts).kept2 with
+    | true => simp
+    | false =>
+      have hl : Spec.SvgBase.lossFree ts = false := by
+        cases hl : Spec.SvgBase.lossFree ts with
+        | false => rfl
+        | true => rw [kept_of_no_lossy_feature nodes ts hd hl] at hk; cases hk
+      simp only [Spec.SvgBase.lossFree] at hl
+      simp only [Spec.SvgBase.contentClause, Spec.SvgBase.features, Bool.false_eq_true, if_false]
+      by_cases h1 : Spec.SvgBase.hasComment ts = true
+      · simp [h1]
+      · by_cases h2 : Spec.SvgBase.mixedText ts = true
+        · simp [h1, h2]
+        · by_cases h3 : Spec.SvgBase.hasPrefix ts = true
+          · simp [h1, h2, h3]
+          · by_cases h4 : Spec.SvgBase.piMoved ts = true
+            · simp [h1, h2, h3, h4]
+            · simp_all
+
+open RawPanelVerif.Xml in
+/-- a document without any of the five features: the model's output satisfies the whole predicate -/
+theorem svg_model_holds_of_no_feature (rot : Str → RotInfo) (kinds : Str) (endOk : Bool) (o : SvgOpts) (t : Topology)
+    (mask : Option (List (Nat × Nat))) (nodes : List SvgNode) (h : compositeNodes rot kinds endOk o t mask = some nodes)
+    (ts : List Tok) (hd : Spec.SvgBase.docShape [] false ts = true) (hl : Spec.SvgBase.lossFree ts = true)
+    (hc : Spec.SvgBase.attrCollision ts = false) :
+    Spec.Svg.checkSVG (fmtOf rot) o t mask kinds endOk ts none (withPrinted (compositeNodes rot kinds endOk o t mask))
+        (Xmldom.modelObserved nodes ts) = none := by
+  rw [svg_model_verdict rot kinds endOk o t mask nodes h ts hd, hc, kept_of_no_lossy_feature nodes ts hd hl]
+  simp
+
+/-- A valid document that the decoder rejects (`endOk = false`; the harness's class `c`: encoding, version, entity):
+the model returns nothing, as `bad_svg_gives_empty` says, and the predicate names the class. -/
+theorem rejected_valid_gives_empty (rot : Str → RotInfo) (kinds : Str) (ts : List Xml.Tok) (c : String) (o : SvgOpts)
+    (t : Topology) (mask : Option (List (Nat × Nat))) (ob : Spec.Svg.Observed) :
+    compositeNodes rot kinds false o t mask = none ∧
+    Spec.Svg.checkSVG (fmtOf rot) o t mask kinds false ts (some c) (withPrinted (compositeNodes rot kinds false o t mask)) ob
+      = some ("valid-base-rejected:" ++ c) := by
+  have h := (bad_svg_gives_empty rot kinds false o t mask (Or.inl rfl)).2
+  refine ⟨h, ?_⟩
+  rw [svg_verdict_is_observation]
+  simp [Spec.Svg.baseOk]
+
 /-! ## non-vacuity -/
 
 def exRot : Str → RotInfo := fun tk =>
@@ -504,6 +736,8 @@ def exT : Topology :=
 def obOk : Spec.Svg.Observed := { kept := true, kept2 := true, wellformed := true, tail := true }
 /-- token kinds of `<?xml …?>\n<svg></svg>`: P W S E -/
 def exKinds : Str := b "PWSE"
+def exToks : List Xml.Tok := [.pi (b "xml") (b "version=\"1.0\""), .text [], .start [] (b "svg") [], .stop [] (b "svg")]
+example : exToks.map Xml.kindOf = exKinds := by decide
 
 /-- component 1: rect at (450,270) 100x60, one sub rect, two label lines, id text; component 2 masked out; 3, 4 visible -/
 example : (compositeNodes exRot exKinds true exO exT (some [(1, 1), (2, 0), (3, 7), (4, 1)])).map (fun l => l.map (fun n => (n.name, n.text)))
@@ -559,6 +793,102 @@ example : Spec.Svg.shapeOk { name := b "rect", attrs := [(b "a b", b "1")] } = f
 example : Spec.Svg.shapeOk { name := b "g" } = false := by decide
 example : Spec.Svg.shapeOk { name := b "rect", attrs := [(b "rx", b "1"), (b "x", b "2")] } = true := by decide
 
+/-! ### the base document through the round trip: one document per class -/
+section BaseDocs
+open RawPanelVerif.Xml RawPanelVerif.Xmldom RawPanelVerif.Spec.SvgBase
+
+/-- `<?xml version="1.0"?>\n<!DOCTYPE svg><svg viewBox="0 0 1 1"><g/><text>t</text>r</svg>\n` — no lossy feature -/
+def exClean : List Tok :=
+  [.pi (b "xml") (b "version=\"1.0\""), .text [], .dir (b "DOCTYPE svg"), .start [] (b "svg") [([], b "viewBox", b "0 0 1 1")],
+   .start [] (b "g") [], .stop [] (b "g"), .start [] (b "text") [], .text (b "t"), .stop [] (b "text"), .text (b "r"),
+   .stop [] (b "svg"), .text []]
+example : XmlDoc exClean = true ∧ lossFree exClean = true ∧ attrCollision exClean = false := by decide
+example : printedToks [] exClean = content exClean := by decide
+example : (modelObserved [{ name := b "rect", attrs := [(b "x", b "1")] }, { name := b "text", text := b "A" }] exClean).kept2 = true ∧
+    (modelObserved [{ name := b "rect", attrs := [(b "x", b "1")] }] exClean).wellformed = true := by decide
+/-- the appended elements stand after the root's own children, before its text -/
+example : printedToks (appToks [{ name := b "text", text := b "A" }]) [.start [] (b "svg") [], .start [] (b "g") [], .stop [] (b "g"),
+      .text (b "r"), .stop [] (b "svg")]
+    = [.start [] (b "svg") [], .start [] (b "g") [], .stop [] (b "g"), .start [] (b "text") [], .text (b "A"), .stop [] (b "text"),
+       .text (b "r"), .stop [] (b "svg")] := by decide
+
+/-- `<svg><!-- c --></svg>`: the comment is gone -/
+def exComment : List Tok := [.start [] (b "svg") [], .comment (b " c "), .stop [] (b "svg")]
+example : XmlDoc exComment = true ∧ hasComment exComment = true ∧
+    printedToks [] exComment = [.start [] (b "svg") [], .stop [] (b "svg")] ∧ (modelObserved [] exComment).kept2 = false := by decide
+
+/-- `<svg><text>a<tspan>b</tspan>c</text></svg>`: `a` is overwritten by `c`, which is printed behind the child -/
+def exMixed : List Tok :=
+  [.start [] (b "svg") [], .start [] (b "text") [], .text (b "a"), .start [] (b "tspan") [], .text (b "b"), .stop [] (b "tspan"),
+   .text (b "c"), .stop [] (b "text"), .stop [] (b "svg")]
+example : XmlDoc exMixed = true ∧ mixedText exMixed = true ∧ lossFree exMixed = false ∧
+    printedToks [] exMixed = [.start [] (b "svg") [], .start [] (b "text") [], .start [] (b "tspan") [], .text (b "b"),
+      .stop [] (b "tspan"), .text (b "c"), .stop [] (b "text"), .stop [] (b "svg")] ∧
+    (modelObserved [] exMixed).kept2 = false := by decide
+/-- `<svg>t<rect/></svg>`: the root's text moves behind the child; `<svg><text>a<![CDATA[b]]></text></svg>`: two tokens -/
+example : printedToks [] [.start [] (b "svg") [], .text (b "t"), .start [] (b "rect") [], .stop [] (b "rect"), .stop [] (b "svg")]
+    = [.start [] (b "svg") [], .start [] (b "rect") [], .stop [] (b "rect"), .text (b "t"), .stop [] (b "svg")] := by decide
+example : mixedText [.start [] (b "svg") [], .start [] (b "text") [], .text (b "a"), .text (b "b"), .stop [] (b "text"), .stop [] (b "svg")]
+    = true := by decide
+/-- text, then children, then the end tag is NOT mixed: `<text><tspan>b</tspan>c</text>` is kept -/
+example : lossFree [.start [] (b "text") [], .start [] (b "tspan") [], .text (b "b"), .stop [] (b "tspan"), .text (b "c"),
+    .stop [] (b "text")] = true := by decide
+
+/-- `<svg><image href="a" xlink:href="a"/></svg>`: prefixes stripped, `href` twice -/
+def exPrefix : List Tok :=
+  [.start [] (b "svg") [], .start [] (b "image") [([], b "href", b "a"), (b "xlink", b "href", b "a")], .stop [] (b "image"),
+   .stop [] (b "svg")]
+example : XmlDoc exPrefix = true ∧ hasPrefix exPrefix = true ∧ attrCollision exPrefix = true ∧
+    printedToks [] exPrefix = [.start [] (b "svg") [], .start [] (b "image") [([], b "href", b "a"), ([], b "href", b "a")],
+      .stop [] (b "image"), .stop [] (b "svg")] ∧
+    (modelObserved [] exPrefix).kept2 = false ∧ (modelObserved [] exPrefix).wellformed = false := by decide
+/-- `<s:svg xmlns:s="u"><s:rect/></s:svg>`: element prefixes; no collision -/
+example : hasPrefix [.start (b "s") (b "svg") [(b "xmlns", b "s", b "u")], .start (b "s") (b "rect") [], .stop (b "s") (b "rect"),
+      .stop (b "s") (b "svg")] = true ∧
+    attrCollision [.start (b "s") (b "svg") [(b "xmlns", b "s", b "u")], .start (b "s") (b "rect") [], .stop (b "s") (b "rect"),
+      .stop (b "s") (b "svg")] = false := by decide
+
+/-- `<?xml version="1.0"?><?xml-stylesheet href="s.css"?><svg/>`: only the last instruction survives -/
+def exPI : List Tok :=
+  [.pi (b "xml") (b "version=\"1.0\""), .pi (b "xml-stylesheet") (b "href=\"s.css\""), .start [] (b "svg") [], .stop [] (b "svg")]
+example : XmlDoc exPI = true ∧ piMoved exPI = true ∧
+    printedToks [] exPI = [.pi (b "xml-stylesheet") (b "href=\"s.css\""), .start [] (b "svg") [], .stop [] (b "svg")] ∧
+    (modelObserved [] exPI).kept2 = false := by decide
+/-- `<svg><?foo bar?></svg>`: the instruction moves to the front; a single leading instruction is fine -/
+example : printedToks [] [.start [] (b "svg") [], .pi (b "foo") (b "bar"), .stop [] (b "svg")]
+    = [.pi (b "foo") (b "bar"), .start [] (b "svg") [], .stop [] (b "svg")] := by decide
+example : piMoved [.text [], .pi (b "foo") (b "bar"), .start [] (b "svg") [], .stop [] (b "svg")] = false := by decide
+
+/-- not documents, although `encoding/xml` tokenizes them: two top-level elements (the second is not reachable from
+`doc.Root` and not printed), character data outside the root, a directive inside it, an attribute twice -/
+example : docShape [] false [.start [] (b "a") [], .stop [] (b "a"), .start [] (b "b") [], .stop [] (b "b")] = false ∧
+    printedToks [] [.start [] (b "a") [], .stop [] (b "a"), .start [] (b "b") [], .stop [] (b "b")]
+      = [.start [] (b "a") [], .stop [] (b "a")] := by decide
+example : docShape [] false [.start [] (b "a") [], .stop [] (b "a"), .text (b "x")] = false := by decide
+example : docShape [] false [.start [] (b "a") [], .dir (b "DOCTYPE a"), .stop [] (b "a")] = false := by decide
+example : docShape [] false [.start [] (b "a") [], .stop [] (b "b")] = false := by decide
+example : XmlDoc [.start [] (b "a") [([], b "x", b "1"), ([], b "x", b "2")], .stop [] (b "a")] = false := by decide
+
+/-- the clause names and the flag names -/
+example : contentClause (features exComment) = "base-content:comment" ∧ contentClause (features exMixed) = "base-content:mixed-text" ∧
+    contentClause (features exPrefix) = "base-content:ns-prefix" ∧ contentClause (features exPI) = "base-content:pi" ∧
+    contentClause (features exClean) = "base-content" ∧ wellformedClause (features exPrefix) = "not-wellformed:duplicate-attribute" ∧
+    wellformedClause (features exClean) = "wellformed" ∧ (features exPrefix).names = ["ns-prefix", "dup-attr"] := by decide
+
+/-- the whole predicate on the model's output with the model's own flags -/
+example : Spec.Svg.checkSVG (fmtOf exRot) exO exT none (exClean.map kindOf) true exClean none
+    (withPrinted (compositeNodes exRot (exClean.map kindOf) true exO exT none))
+    (modelObserved ((compositeNodes exRot (exClean.map kindOf) true exO exT none).getD []) exClean) = none := by decide
+example : Spec.Svg.checkSVG (fmtOf exRot) exO exT none (exPrefix.map kindOf) true exPrefix none
+    (withPrinted (compositeNodes exRot (exPrefix.map kindOf) true exO exT none))
+    (modelObserved ((compositeNodes exRot (exPrefix.map kindOf) true exO exT none).getD []) exPrefix)
+    = some "not-wellformed:duplicate-attribute" := by decide
+example : Spec.Svg.checkSVG (fmtOf exRot) exO exT none (exMixed.map kindOf) true exMixed none
+    (withPrinted (compositeNodes exRot (exMixed.map kindOf) true exO exT none))
+    (modelObserved ((compositeNodes exRot (exMixed.map kindOf) true exO exT none).getD []) exMixed)
+    = some "base-content:mixed-text" := by decide
+end BaseDocs
+
 /-- the parser result: empty input = error; only a declaration / comments / blanks = no root; error at the end = error -/
 example : parseXML [] true = .err := by decide
 example : parseXML (b "P") true = .noRoot := by decide
@@ -572,22 +902,30 @@ example : Spec.Svg.baseOk (b "PM") true = false ∧ Spec.Svg.baseOk exKinds true
 
 /-- the Spec rejects wrong outputs: a masked component drawn, a missing one, a document for a bad base, no document for
 a valid base, a lost base element, an element printed without escaping, a wrong rotation -/
-example : Spec.Svg.checkSVG (fmtOf exRot) exO exT (some []) exKinds true (withPrinted (compositeNodes exRot exKinds true exO exT none)) obOk
+example : Spec.Svg.checkSVG (fmtOf exRot) exO exT (some []) exKinds true exToks none (withPrinted (compositeNodes exRot exKinds true exO exT none)) obOk
     = some "extra-nodes" := by decide
-example : Spec.Svg.checkSVG (fmtOf exRot) exO exT none exKinds true (some []) obOk = some "missing-main" := by decide
-example : Spec.Svg.checkSVG (fmtOf exRot) exO exT none (b "M") true (some []) obOk = some "bad-base-not-empty" := by decide
-example : Spec.Svg.checkSVG (fmtOf exRot) exO exT none exKinds true none obOk = some "nil-for-valid-base" := by decide
-example : Spec.Svg.checkSVG (fmtOf exRot) exO exT none exKinds true (withPrinted (compositeNodes exRot exKinds true exO exT none))
+example : Spec.Svg.checkSVG (fmtOf exRot) exO exT none exKinds true exToks none (some []) obOk = some "missing-main" := by decide
+example : Spec.Svg.checkSVG (fmtOf exRot) exO exT none (b "M") true [.comment []] none (some []) obOk = some "bad-base-not-empty" := by decide
+example : Spec.Svg.checkSVG (fmtOf exRot) exO exT none exKinds true exToks none none obOk = some "nil-for-valid-base" := by decide
+example : Spec.Svg.checkSVG (fmtOf exRot) exO exT none exKinds true exToks none (withPrinted (compositeNodes exRot exKinds true exO exT none))
     { obOk with kept2 := false } = some "base-content" := by decide
-example : Spec.Svg.checkSVG (fmtOf exRot) exO exT none exKinds true (withPrinted (compositeNodes exRot exKinds true exO exT none))
+example : Spec.Svg.checkSVG (fmtOf exRot) exO exT none exKinds true exToks none (withPrinted (compositeNodes exRot exKinds true exO exT none))
+    { obOk with kept := false } = some "base-content" := by decide
+example : Spec.Svg.checkSVG (fmtOf exRot) exO exT none exKinds true exToks none (withPrinted (compositeNodes exRot exKinds true exO exT none))
     { obOk with wellformed := false } = some "wellformed" := by decide
-example : Spec.Svg.checkSVG (fmtOf exRot) exO exT none exKinds true (withPrinted (compositeNodes exRot exKinds true exO exT none)) obOk
+example : Spec.Svg.checkSVG (fmtOf exRot) exO exT none exKinds true exToks none (withPrinted (compositeNodes exRot exKinds true exO exT none)) obOk
     = none := by decide
-example : Spec.Svg.checkSVG (fmtOf exRot) exO exT none exKinds true
+example : Spec.Svg.checkSVG (fmtOf exRot) exO exT none exKinds true exToks none
     ((compositeNodes exRot exKinds true exO exT none).map (fun l => l.map (fun n => (n, b "<" ++ n.name ++ b ">" ++ n.text ++ b "</" ++ n.name ++ b ">"))))
     obOk = some "wf-printed" := by decide
 /-- a rotation the table formats differently is a different `transform`: the main shape of component 2 is rejected -/
-example : Spec.Svg.checkSVG (fun _ => b "91.000000") exO exT (some [(2, 1)]) exKinds true
+example : Spec.Svg.checkSVG (fun _ => b "91.000000") exO exT (some [(2, 1)]) exKinds true exToks none
     (withPrinted (compositeNodes exRot exKinds true exO exT (some [(2, 1)]))) obOk = some "main" := by decide
+/-- a failure in what is ADDED is reported before a (possibly known) failure about the base part -/
+example : Spec.Svg.checkSVG (fmtOf exRot) exO exT (some []) exKinds true exToks none (withPrinted (compositeNodes exRot exKinds true exO exT none))
+    { obOk with kept2 := false } = some "extra-nodes" := by decide
+/-- the empty result for a valid document the decoder rejects (`<?xml version="1.1"?><svg/>`: no token, error) -/
+example : Spec.Svg.checkSVG (fmtOf exRot) exO exT none [] false [] (some "version") none obOk = some "valid-base-rejected:version" := by decide
+example : Spec.Svg.checkSVG (fmtOf exRot) exO exT none [] false [] none none obOk = none := by decide
 
 end RawPanelVerif.C15
